@@ -57,6 +57,8 @@ type V struct {
 	Share int `json:"share,omitempty"`
 	// NegZero: the float value is negative zero (F cannot carry it through JSON's omitempty)
 	NegZero bool `json:"negzero,omitempty"`
+	// NaN: the float value is NaN (JSON cannot carry it)
+	NaN bool `json:"nan,omitempty"`
 }
 
 // Str makes a string value descriptor.
@@ -214,7 +216,9 @@ func fill(ctx *buildCtx, dst reflect.Value, v V) {
 	case reflect.Uint, reflect.Uint8, reflect.Uint16, reflect.Uint32, reflect.Uint64, reflect.Uintptr:
 		dst.SetUint(v.U)
 	case reflect.Float32, reflect.Float64:
-		if v.NegZero {
+		if v.NaN {
+			dst.SetFloat(math.NaN())
+		} else if v.NegZero {
 			dst.SetFloat(math.Copysign(0, -1))
 		} else {
 			dst.SetFloat(v.F)
